@@ -424,6 +424,11 @@ def _merge_single_markers(
     from dep_logic.markers.multi import MultiMarker
     from dep_logic.markers.union import MarkerUnion
 
+    if marker1 == marker2:
+        # a & a == a | a == a, also for atoms that are never merged through
+        # their specifier view (MultiMarker(a, a) would be a one-child compound)
+        return marker1
+
     if _is_reversed_containment(marker1) or _is_reversed_containment(marker2):
         return None
 
